@@ -992,7 +992,7 @@ impl Prop for C18 {
         &["TruthModel.C18.dummy_same_size", "TruthModel.C18.offsets_stable", "TruthModel.C18.label_on_boundary", "TruthModel.C18.end_is_length", "TruthModel.C18.instr_count",
           "TruthModel.C18.label_time", "TruthModel.C18.label_args_use_recorded", "TruthModel.C18.written_layout", "TruthModel.C18.second_pass_ok_of_wide", "TruthModel.C18.no_panic_after_gather",
           "TruthModel.C18.second_pass_reports", "TruthModel.C18.index20_no_assert", "TruthModel.C18.encodeLabels_no_panic",
-          "TruthModel.C18.msg_export_indices", "TruthModel.C18.default_entry_listed", "TruthModel.C18.entry_beyond_len_not_listed", "TruthModel.C18.exports_complete", "TruthModel.C18.exports_sound"]
+          "TruthModel.C18.msg_export_indices", "TruthModel.C18.msg_export_indices_written", "TruthModel.C18.default_entry_listed", "TruthModel.C18.entry_beyond_len_not_listed", "TruthModel.C18.exports_complete", "TruthModel.C18.exports_sound"]
     }
     fn timeout_secs(&self) -> u64 { 60 }
 
